@@ -26,6 +26,7 @@
 #include "metricspace.h"
 #include "statistic.h"
 #include "verif_hooks.h"
+#include <float.h>
 #include <math.h>
 #include <pthread.h>
 
@@ -157,6 +158,7 @@ void LVCalc(matrix *X,
   double dot_t;
   double dot_u;
   double dot_w;
+  double norm_x;
   
   /* Make a copy of variables for memory reasons... */
   matrix *X_;
@@ -209,6 +211,15 @@ void LVCalc(matrix *X,
   #ifdef DEBUG
   step = 0;
   #endif
+  /* Frobenius norm of X (constant while the weights are iterated) */
+  norm_x = 0.f;
+  for(i = 0; i < X_->row; i++){
+    for(j = 0; j < X_->col; j++){
+      norm_x += square(X_->data[i][j]);
+    }
+  }
+  norm_x = sqrt(norm_x);
+
   loop = 0;
   while(1){
     #ifdef DEBUG
@@ -220,10 +231,31 @@ void LVCalc(matrix *X,
     DVectorMatrixDotProduct(X_, u_, w_);
     dot_u = DVectorDVectorDotProd(u_, u_);
 
-    /* constant response or exhausted X: there is no latent variable left to extract */
-    if(!(dot_u > 0.f) || !(DvectorModule(w_) > 0.f)){
-      null_lv = 1;
-      break;
+    /* constant response or exhausted X: there is no latent variable left to extract.
+     * X'u is a sum of X->row products per variable, so |X'u| <= row*eps*||X||*||u|| is its own rounding error:
+     * numerically there is no covariance left between X and u (a response fitted exactly by the previous latent
+     * variables, a residual orthogonal to every x variable). A weight vector normalised from that residue gives
+     * scores at rounding level and a coefficient b = u't/t't of any size. With several responses the start
+     * column may be such a response while another one still covaries with X: start from that one. */
+    if(!(dot_u > 0.f) || !(DvectorModule(w_) > (double)X_->row*DBL_EPSILON*norm_x*sqrt(dot_u))){
+      int found = 0;
+      if(loop == 0 && Y_->col > 1){
+        for(j = 0; j < Y_->col && found == 0; j++){
+          for(i = 0; i < u_->size; i++){
+            u_->data[i] = Y_->data[i][j];
+          }
+          DVectorSet(w_, 0.f);
+          DVectorMatrixDotProduct(X_, u_, w_);
+          dot_u = DVectorDVectorDotProd(u_, u_);
+          if(dot_u > 0.f && DvectorModule(w_) > (double)X_->row*DBL_EPSILON*norm_x*sqrt(dot_u)){
+            found = 1;
+          }
+        }
+      }
+      if(found == 0){
+        null_lv = 1;
+        break;
+      }
     }
 
     for(i = 0; i < w_->size; i++){
